@@ -64,7 +64,8 @@ theorem inv_insert (s : State) (h : Inv s) (d : Nat) (k : Int) : Inv (insert s d
         refine ⟨wf_ins k d s.map h.wf, ?_⟩
         intro hu
         simp only at hu
-        simp [hu, hnc] at hnu
+        have : p.contains d = true := by simpa [hu] using hnu
+        exact absurd this hnc
   · rename_i hp
     exact ⟨wf_ins k d s.map h.wf, fun hu => uniqInv_ins_fresh s.map h.wf (h.uniq hu) k d hp⟩
 
@@ -92,7 +93,8 @@ theorem inv_insertLoop (u : Bool) (d : Nat) : ∀ (ks : List Int) (m : OMap) (n 
         · rename_i hnc
           apply inv_insertLoop u d ks _ _ (wf_ins k d m hw)
           intro hu'
-          simp [hu', hnc] at hnu
+          have : p.contains d = true := by simpa [hu'] using hnu
+          exact absurd this hnc
     · rename_i hp
       exact inv_insertLoop u d ks _ _ (wf_ins k d m hw) (fun hu' => uniqInv_ins_fresh m hw (hu hu') k d hp)
 
@@ -115,9 +117,7 @@ theorem inv_insertArray (s : State) (h : Inv s) (d : Nat) (ks : List Int) : Inv 
   · split
     · exact h
     · have := inv_insertLoop s.unique d ks s.map 0 h.wf h.uniq
-      split
-      rename_i m' n deferred heq
-      rw [heq] at this
+      simp only
       split <;> exact ⟨this.1, this.2⟩
 
 theorem unique_insertArray (s : State) (d : Nat) (ks : List Int) : (insertArray s d ks).1.unique = s.unique := by
@@ -126,86 +126,56 @@ theorem unique_insertArray (s : State) (d : Nat) (ks : List Int) : (insertArray 
   · rfl
   · split
     · rfl
-    · split
+    · simp only
       split <;> rfl
 
 theorem inv_removeArrayCore (s : State) (h : Inv s) (d : Nat) (ks : List Int) : Inv (removeArrayCore s d ks).1 := by
   unfold removeArrayCore
   have := inv_removeLoop s.unique d ks s.map 0 h.wf h.uniq
-  split
-  rename_i m' n heq
-  rw [heq] at this
   exact ⟨this.1, this.2⟩
 
-theorem unique_removeArrayCore (s : State) (d : Nat) (ks : List Int) : (removeArrayCore s d ks).1.unique = s.unique := by
-  unfold removeArrayCore
-  split
-  rfl
+theorem unique_removeArrayCore (s : State) (d : Nat) (ks : List Int) : (removeArrayCore s d ks).1.unique = s.unique := rfl
 
 theorem inv_batchUpdate (s : State) (h : Inv s) (d : Nat) (old new : List Int) : Inv (batchUpdate s d old new).1 := by
   unfold batchUpdate
   simp only
-  have hins : ∀ l, Inv (if l.isEmpty = true then (s, Out.okN 0) else insertArray s d l).1 := by
-    intro l; split
+  generalize List.filter (fun k => !old.contains k) new.eraseDups = l
+  generalize List.filter (fun k => !new.contains k) old.eraseDups = l'
+  have h1 : Inv (if l.isEmpty = true then (s, Out.okN 0) else insertArray s d l).1 := by
+    split
     · exact h
     · exact inv_insertArray s h d l
-  generalize hl : List.filter (fun k => !old.contains k) new.eraseDups = l
-  have h1 := hins l
+  generalize (if l.isEmpty = true then (s, Out.okN 0) else insertArray s d l) = r₁ at h1
   split
-  · rename_i s₁ inserted heq
-    rw [heq] at h1
-    simp only at h1
+  · simp only
     split
-    rename_i s₂ removed heq2
-    have : Inv (if (List.filter (fun k => !new.contains k) old.eraseDups).isEmpty = true then (s₁, 0)
-        else removeArrayCore s₁ d (List.filter (fun k => !new.contains k) old.eraseDups)).1 := by
-      split
-      · exact h1
-      · exact inv_removeArrayCore s₁ h1 d _
-    rw [heq2] at this
-    exact this
-  · rename_i s₁ out hne heq
-    rw [heq] at h1
-    exact h1
+    · exact h1
+    · exact inv_removeArrayCore r₁.1 h1 d l'
+  · exact h1
 
 theorem unique_batchUpdate (s : State) (d : Nat) (old new : List Int) : (batchUpdate s d old new).1.unique = s.unique := by
   unfold batchUpdate
   simp only
   generalize List.filter (fun k => !old.contains k) new.eraseDups = l
+  generalize List.filter (fun k => !new.contains k) old.eraseDups = l'
   have h1 : (if l.isEmpty = true then (s, Out.okN 0) else insertArray s d l).1.unique = s.unique := by
     split
     · rfl
     · exact unique_insertArray s d l
+  generalize (if l.isEmpty = true then (s, Out.okN 0) else insertArray s d l) = r₁ at h1
   split
-  · rename_i s₁ inserted heq
-    rw [heq] at h1
-    simp only at h1
+  · simp only
     split
-    rename_i s₂ removed heq2
-    have : (if (List.filter (fun k => !new.contains k) old.eraseDups).isEmpty = true then (s₁, 0)
-        else removeArrayCore s₁ d (List.filter (fun k => !new.contains k) old.eraseDups)).1.unique = s₁.unique := by
-      split
-      · rfl
-      · exact unique_removeArrayCore s₁ d _
-    rw [heq2] at this
-    simp only at this ⊢
-    rw [this, h1]
-  · rename_i s₁ out hne heq
-    rw [heq] at h1
-    exact h1
+    · exact h1
+    · rw [unique_removeArrayCore]; exact h1
+  · exact h1
 
 theorem inv_step (s : State) (h : Inv s) (op : Op) : Inv (step s op).1 := by
   cases op with
   | insert d k => exact inv_insert s h d k
   | remove d k => exact inv_remove s h d k
   | insertArray d ks => exact inv_insertArray s h d ks
-  | removeArray d ks =>
-    simp only [step, removeArray]
-    have := inv_removeArrayCore s h d ks
-    split
-    rename_i s' n heq
-    rw [heq] at this
-    exact this
+  | removeArray d ks => exact inv_removeArrayCore s h d ks
   | batchUpdate d old new => exact inv_batchUpdate s h d old new
   | get k => exact ⟨h.wf, h.uniq⟩
   | len => exact h
@@ -228,13 +198,7 @@ theorem unique_step (s : State) (op : Op) : (step s op).1.unique = s.unique := b
     · split <;> rfl
     · rfl
   | insertArray d ks => exact unique_insertArray s d ks
-  | removeArray d ks =>
-    simp only [step, removeArray]
-    have := unique_removeArrayCore s d ks
-    split
-    rename_i s' n heq
-    rw [heq] at this
-    exact this
+  | removeArray d ks => rfl
   | batchUpdate d old new => exact unique_batchUpdate s d old new
   | get k => rfl
   | len => rfl
@@ -249,30 +213,13 @@ theorem inv_run : ∀ (ops : List Op) (s : State), Inv s → Inv (run s ops).1
   | [], s, h => h
   | op :: ops, s, h => by
     simp only [run]
-    have h1 := inv_step s h op
-    split
-    rename_i s' o heq
-    rw [heq] at h1
-    have h2 := inv_run ops s' h1
-    split
-    rename_i s'' os heq2
-    rw [heq2] at h2
-    exact h2
+    exact inv_run ops _ (inv_step s h op)
 
 theorem unique_run : ∀ (ops : List Op) (s : State), (run s ops).1.unique = s.unique
   | [], s => rfl
   | op :: ops, s => by
     simp only [run]
-    have h1 := unique_step s op
-    split
-    rename_i s' o heq
-    rw [heq] at h1
-    have h2 := unique_run ops s'
-    split
-    rename_i s'' os heq2
-    rw [heq2] at h2
-    simp only at h1 h2 ⊢
-    rw [h2, h1]
+    rw [unique_run ops, unique_step]
 
 end BTree
 end AndaVerif
